@@ -21,7 +21,7 @@ From Verif Require Import Lib.Base Mkvs.Trie Mkvs.HashProofs Gen.ProofConsts
 Theorem gen_consts_expected :
   max_proof_depth = 128 /\ min_proof_version = 0 /\ latest_proof_version = 1 /\
   proof_entry_full = 1 /\ proof_entry_hash = 2 /\ MAX_PROOF_DEPTH = max_proof_depth.
-Proof. repeat split. Qed.
+Proof. exact gen_consts_expected_l. Qed.
 Print Assumptions gen_consts_expected.
 
 (* An accepted proof is the real tree with some subtrees / leaf pointers replaced
